@@ -10,7 +10,12 @@ RULE = ("seeded scenarios of 2-5 contenders x 1-2 locks (re-entrant nesting <= 3
         "each scenario is run fault-free and then once per (victim, kind in cancel/interrupt/"
         "close, kernel event) with the fault injected at that event. A run is non-trivial when "
         "at least one contender had to wait for a lock; distinct = distinct sequence of "
-        "(actor, lock event) in activation order including the fault position.")
+        "(actor, lock event) in activation order including the fault position."
+        " A fifth of the scenarios are `mixed` programs (usimdst/mixed.py): two locks, a "
+        "queue, a channel and a capacity supply used by the same activities in nested "
+        "blocks. After the single-fault sweep, seeded pairs of cancels and seeded fault "
+        "sequences of mixed kinds (2-3 victims, each with its own kind) are run as well; "
+        "a tenth of the budget runs under python -O.")
 BUDGET = {"quick": {"cases": 500, "wall_s": 240, "chunk": 2, "per_group": 30},
           "thorough": {"cases": 4000, "wall_s": 1500, "chunk": 5, "per_group": 400}}
 ASSUMPTIONS = ["a designated next owner (hand-off decided, not yet resumed) counts as holding"]
